@@ -740,6 +740,13 @@ def _tolerant_try(node):
                     return True
                 if names & _BROAD:
                     break       # the first matching handler re-raises
+        if isinstance(cur, ast.With) and any(child is b for b in cur.body):
+            # `with contextlib.suppress(OSError):` absorbs the same errors as such a handler
+            for it_ in cur.items:
+                ce = it_.context_expr
+                if isinstance(ce, ast.Call) and norm(ce.func).split(".")[-1] == "suppress" \
+                        and {norm(a_).split(".")[-1] for a_ in ce.args} & _BROAD:
+                    return True
         cur, child = getattr(cur, "_parent", None), cur
     return False
 
